@@ -41,6 +41,18 @@ def genFullCfg (desc : Bool) (nodes : List Node) : Except PipeErr Cfg := do
   | (g', true) => pure g'
   | (_, false) => throw (.hang "liveness")
 
+/-- the graph that enters the function markup pass -/
+def genPreMarkup (nodes : List Node) : Except PipeErr Cfg := do
+  let g1 ← liftCfg (buildCfg nodes none)
+  let g1 ← liftCfg (directions g1)
+  let g1 ← runAvail "stage1-available" g1
+  let names := interruptHandlerNames g1
+  let g ← liftCfg (buildCfg nodes (some names))
+  let g ← liftCfg (directions g)
+  let g := deadCode g
+  let g ← runAvail "available-1" g
+  pure (ecallTerm g)
+
 /-- the pipeline up to and including the second run of the value analysis, with the set of
     nodes that run visited: the graph the register claims of the final result were computed on -/
 def genValueCfg (desc : Bool) (nodes : List Node) : Except PipeErr (Cfg × List Nat) := do
@@ -242,7 +254,12 @@ def pipeTrace (stages : List String) (files : List (String × String)) (desc : B
             | .ok gf => (List.range g.nodes.size).all fun i =>
                 AMap.sameAs (g.get i).regIn (gf.get i).regIn && AMap.sameAs (g.get i).regOut (gf.get i).regOut
             | .error _ => false
-          [s!"GOODFACTS {goodFactsB g vis} final-facts-are-these={same} visited={vis.length}/{g.nodes.size}"]
+          let markDone := match genPreMarkup out.nodes with
+            | .ok gp => markAllDone desc (List.range gp.nodes.size) gp
+            | .error _ => false
+          [s!"GOODFACTS {goodFactsB g vis} final-facts-are-these={same} visited={vis.length}/{g.nodes.size}",
+           s!"MARKDONE {markDone}"] ++
+          (if goodFactsB g vis then [] else [s!"GOODWHY {goodFactsWhy g vis}"])
       else []
     parseLines ++ stepLines ++ fullLines ++ extraLines ++ runLines ++ goodLines
 
